@@ -1527,9 +1527,15 @@ func (m *metadataAPI) RemoveStream(stream *stream, recovered bool, epoch uint64)
 	// stream. We don't want to delete streams until recovery finishes to avoid
 	// deleting potentially valid data, e.g. in the case of a stream being
 	// deleted, recreated, and then published to. In this scenario, the
-	// recreate will un-tombstone the stream.
+	// recreate will un-tombstone the stream. The consumer groups, however,
+	// hear of the deletion now, with the epoch of this operation, as they do
+	// on a server that applies the operation as a newly committed one.
+	// Otherwise the recovered groups would end up with another epoch, and
+	// possibly other assignments, than the groups on those servers.
 	if recovered {
 		stream.Tombstone()
+		name := stream.GetName()
+		streamDeleted = func() { m.announceStreamDeleted(name, epoch) }
 	} else {
 		announce, err := m.deleteStream(stream, epoch)
 		if err != nil {
@@ -1620,12 +1626,21 @@ func (m *metadataAPI) removeStream(stream *stream, epoch uint64) func() {
 	}
 	return func() {
 		verifGate("metadata.stream_deleted")
-		m.consumerGroupsMu.RLock()
-		for _, group := range m.consumerGroups {
-			group.StreamDeleted(stream.GetName(), epoch)
-		}
-		m.consumerGroupsMu.RUnlock()
+		m.announceStreamDeleted(stream.GetName(), epoch)
 	}
+}
+
+// announceStreamDeleted tells the consumer groups that the stream was deleted
+// by the operation with the given epoch. This must not be called within the
+// scope of the metadata mutex. Groups that have no subscribers of the stream
+// (any more), e.g. because the deletion was already announced when the stream
+// was tombstoned, are not affected.
+func (m *metadataAPI) announceStreamDeleted(name string, epoch uint64) {
+	m.consumerGroupsMu.RLock()
+	for _, group := range m.consumerGroups {
+		group.StreamDeleted(name, epoch)
+	}
+	m.consumerGroupsMu.RUnlock()
 }
 
 func (m *metadataAPI) getStreams() []*stream {
